@@ -28,7 +28,7 @@ ASSUMPTIONS = [
     "value comparison only where the quotient is defined (both-empty / empty reference for RVD / empty skeleton excluded)",
     "calls passing only one of the two selectors, or selecting label 0, are outside the documented contract",
 ]
-BUDGET = {"quick": 150, "thorough": 1500}
+BUDGET = {"quick": 200, "thorough": 3000}
 
 SUBSETS = [list(c) for n in range(1, 5) for c in itertools.combinations((1, 2, 3, 4), n)]
 MASK_DTYPES = ("bool", "uint8", "int8", "uint16", "int64", "float32")
